@@ -25,7 +25,7 @@ def diff_fields(want, got):
     # schema IRIs: the report schema is always in the @context, the lexical schema only when there are results
     ws = want["schema"]
     if not want["results"]:
-        ws = {"alt": "alt", "altRep": "alt", "altLex": "default", "default": "default"}[ws]
+        ws = {"alt": "alt", "altRep": "alt", "altLex": "default", "default": "default", "none": "none", "noRep": "none", "noLex": "default"}[ws]
     if got.get("schema") != ws:
         bad.append("schema")
     return bad
@@ -82,7 +82,7 @@ def run(tier):
         "evaluations": len(rows) * 2, "distinct_nontrivial": nontriv,
         "rule": "scenarios enumerated by TLC (ReportCases.tla): every distribution of validations a, b and an undefined name over "
                 "the three level lists x which are defined x on which of two target nodes each fails x 8 report configurations "
-                "x 2 profile names x 4 clocks x 4 schema configurations (819200 scenarios in 400 slices; %d slice(s) in this run); design facts (conforms iff no Violation result, "
+                "x 2 profile names x 4 clocks x 7 schema configurations (both IRIs default / alternative / one changed / left empty; 1433600 scenarios in 400 slices; %d slice(s) in this run); design facts (conforms iff no Violation result, "
                 "warnings/infos never change conforms, configuration locality, result key iff results) checked on each; every "
                 "scenario rendered (level order / absent-vs-empty level by seed) and run through ValidateWithConfiguration and "
                 "CompileProfile+ValidateCompiledWithConfiguration; non-trivial = scenario with a non-empty result list"
